@@ -64,29 +64,38 @@ def observers(fn_node: ast.FunctionDef, param: str):
     return out
 
 
+class _Loc:
+    def __init__(self, cls):
+        self.loc = cls.loc
+
+
 def strip_table(P: Program, rep: Report, rule: str):
-    strip_f = P.func("middlewares.enclosing", "RemoveEnclosingMiddleware._strip_enclosing")
+    from .common import strip_public
+    strip_f = _Loc(P.cls("middlewares.enclosing", "RemoveEnclosingMiddleware"))
     L = 5 if rep.tier == "thorough" else 4
     strings = ["".join(t) for n in range(0, L + 1) for t in itertools.product(ALPHABET, repeat=n)]
+    # values that span several lines (abstracts, notes): the line break is an ordinary character of the value
+    strings += ["".join(t) for n in range(1, 5) for t in itertools.product(["{", "}", '"', "a", "\n"], repeat=n) if "\n" in t]
+    strings += ["{a\r\nb}", '"a\nb\nc"', "{\n}", "\n{a}\n"]
     bad = {}
     n = 0
     for s in strings:
         def one(ctx, s=s):
             it = driver_interp(P, ctx, "middlewares.enclosing")
             try:
-                return ("return", call_func(it, strip_f, s))
+                return ("return", strip_public(it, P, s))
             except Raised as r:
                 return ("raise", r)
             except (Unsupported, LoopBound) as u:
-                raise AnalysisError(f"C10.R2: analyser cannot follow _strip_enclosing: {u}")
+                raise AnalysisError(f"C10.R2: analyser cannot follow RemoveEnclosingMiddleware.transform_entry: {u}")
         for ctx, (kind, v) in explore(one, 20):
             n += 1
             want = ref_strip(s)
             if kind == "raise":
-                bad.setdefault("raises", (s, f"_strip_enclosing({s!r}) raises {v.cls_name()}"))
+                bad.setdefault("raises", (s, f"removing the enclosing of {s!r} raises {v.cls_name()}"))
             elif tuple(v) != want if isinstance(v, tuple) else True:
                 cls = "lone-delimiter" if len(s.strip()) == 1 else ("pair" if want[1] != "no-enclosing" else "no-pair")
-                bad.setdefault(cls, (s, f"_strip_enclosing({s!r}) = {v!r}, exactly-one-layer rule gives {want!r}"))
+                bad.setdefault(cls, (s, f"removing the enclosing of {s!r} gives (value, recorded enclosing) = {v!r}, the exactly-one-layer rule gives {want!r}"))
     rep.count("strip_class_strings", n)
     rep.require_count(rule, "class strings", n, 1000)
     for k, (s, msg) in sorted(bad.items()):
@@ -106,13 +115,14 @@ def reparse_enclosed(P, rep, rule, acls, encl_f):
             it = driver_interp(P, ctx, "middlewares.enclosing", {}, SymHooks())
             try:
                 mw = it.construct(acls, [], {"reuse_previous_enclosing": False, "enclose_integers": True, "default_enclosing": default})
-                return call(it, mw, "_enclose", Hole("v"), None, apply_int_rule=False)
+                from .common import enclose_public
+                return enclose_public(it, P, mw, Hole("v"), None, False)
             except (Raised, Unsupported) as e:
                 return e
         outs = [o for _, o in explore(one, 10)]
         t = outs[0]
         if not (isinstance(t, Template) and len(t.pieces) == 3 and isinstance(t.pieces[0], str) and isinstance(t.pieces[2], str) and t.pieces[1] == Hole("v")):
-            rep.fail(rule, f"enclose-shape:{default}", encl_f.loc, f"_enclose(value, default {default!r}) yields {t!r}, not <opening><value><closing>")
+            rep.fail(rule, f"enclose-shape:{default}", encl_f.loc, f"AddEnclosing (default {default!r}) turns a value into {t!r}, not <opening><value><closing>")
             continue
         op, cl = t.pieces[0], t.pieces[2]
         bad = None
@@ -173,12 +183,27 @@ def run(P: Program, rep: Report):
     enc = P.module("middlewares.enclosing")
     rcls = P.cls("middlewares.enclosing", "RemoveEnclosingMiddleware")
     acls = P.cls("middlewares.enclosing", "AddEnclosingMiddleware")
-    strip_f = P.func("middlewares.enclosing", "RemoveEnclosingMiddleware._strip_enclosing")
-    encl_f = P.func("middlewares.enclosing", "AddEnclosingMiddleware._enclose")
+    strip_f, encl_f = _Loc(rcls), _Loc(acls)
 
-    rep.rule("C10.R0", "abstraction discipline: the two value functions inspect the value only through strip / startswith / "
-                       "endswith / len / constant slices / digit tests / formatting, which are uniform on the explored class strings")
-    for f, param in ((strip_f, "value"), (encl_f, "value")):
+    rep.rule("C10.R0", "abstraction discipline (a precondition of the tables, not a clause of the property): the functions of the module that "
+                       "receive the value from the transform methods inspect it only through strip / startswith / endswith / len / constant "
+                       "slices / digit tests / formatting, which are uniform on the explored class strings; where this cannot be shown the "
+                       "tables below are a bounded sample, and the report says so")
+    from ..model import reachable as _reachable
+    _edges, _ = P.call_graph()
+    _roots = [m for c in (rcls, acls) for n_, m in c.methods.items() if n_.startswith("transform_")]
+    value_fns = []
+    for f_ in sorted(_reachable(_edges, _roots), key=lambda x: x.qualname):
+        if f_.module is enc and f_ not in _roots and f_.name not in ("__init__", "metadata_key"):
+            ps_ = f_.params()
+            ps_ = ps_[1:] if ps_ and ps_[0] in ("self", "cls") else ps_
+            if ps_:
+                value_fns.append((f_, ps_[0]))
+    rep.count("value_functions", len(value_fns))
+    if not value_fns:
+        rep.not_decided.append("C10.R0: the transform methods handle the value themselves; the tables are a bounded sample of values")
+        rep.extra["exhaustive"] = False
+    for f, param in value_fns:
         obs = observers(f.node, param)
         # a value handed to another function of the module is inspected there: follow it (one level)
         for n in ast.walk(f.node):
@@ -190,9 +215,52 @@ def run(P: Program, rep: Report):
                     ps = ps[1:] if ps and ps[0] in ("self", "cls") else ps
                     if pos < len(ps):
                         obs = [o for o in obs if not o.startswith("call:") and o != "Call"] + observers(t.node, ps[pos])
-        bad = sorted(set(obs) - ALLOWED_OBSERVERS)
-        rep.check(not bad, "C10.R0", f"observers:{f.name}", f.loc,
-                  f"{f.name} inspects the value through {bad}: the class-string abstraction does not cover it", note=f"observers {sorted(set(obs))}")
+        # a value matched against a constant regular expression that tells apart nothing but the delimiters (and, through `.`, the
+        # line break - both are class-string characters) is inspected uniformly as well
+        if "Call" in obs:
+            from ..rx import parse_alternatives
+            import re._constants as _sc
+            uniform = True
+            found = 0
+            for n in ast.walk(f.node):
+                if isinstance(n, ast.Call) and isinstance(n.func, ast.Attribute) and n.func.attr in ("fullmatch", "match", "search") \
+                        and any(isinstance(a, ast.Name) and a.id == param for a in n.args):
+                    found += 1
+                    recv = n.func.value
+                    src = None
+                    if isinstance(recv, ast.Name):
+                        src = f.module.assigns.get(recv.id)
+                    elif isinstance(recv, ast.Attribute) and f.cls is not None:
+                        src = next((c.class_attrs[recv.attr] for c in f.cls.mro if recv.attr in c.class_attrs), None)
+                    ok_rx = False
+                    if isinstance(recv, ast.Call):
+                        src = recv          # compiled in place: re.compile(CONST).fullmatch(value)
+                    if isinstance(src, ast.Call) and ast.unparse(src.func).split(".")[-1] == "compile" and src.args:
+                        try:
+                            pat = P.fold(f.module, src.args[0])
+                            alts = parse_alternatives(pat, 0)
+                            lits = set()
+                            for al in alts:
+                                for it_ in al.items:
+                                    if it_.cs.is_finite():
+                                        lits |= it_.cs.chars
+                                    elif not it_.cs.anychar and not it_.cs.negate:
+                                        lits.add("<category>")
+                                ok_rx = not al.opaque or ok_rx
+                            ok_rx = lits <= set('{}" \t\r\n') and all(not al.opaque for al in alts)
+                        except (ValueError, AnalysisError):
+                            ok_rx = False
+                    uniform = uniform and ok_rx
+            if found and uniform:
+                obs = [o for o in obs if o != "Call"] + ["regex-over-delimiters"]
+        bad = sorted(set(obs) - ALLOWED_OBSERVERS - {"regex-over-delimiters"})
+        if bad:
+            # not a violation of the property: the generalisation from class strings to all values is not justified for this shape
+            rep.not_decided.append(f"C10.R0: {f.qualname} inspects its first argument through {bad}; the strip / enclose tables are a bounded sample")
+            rep.extra["exhaustive"] = False
+            rep.ok("C10.R0", f"observers:{f.name}:not-uniform", f.loc, f"observers {sorted(set(obs))}", nontrivial=False)
+        else:
+            rep.ok("C10.R0", f"observers:{f.name}", f.loc, f"observers {sorted(set(obs))}")
 
     rep.rule("C10.R2", "strip table: for every class string over { } \" letter digit space up to length 4, removal yields the text "
                        "without exactly one outer {...} or \"...\" pair formed by two distinct positions (nothing otherwise) and "
@@ -213,11 +281,12 @@ def run(P: Program, rep: Report):
             it = driver_interp(P, ctx, "middlewares.enclosing")
             try:
                 mw = it.construct(acls, [], {"reuse_previous_enclosing": reuse, "enclose_integers": ei, "default_enclosing": default})
-                return ("return", call(it, mw, "_enclose", val, meta, apply_int_rule=air))
+                from .common import enclose_public
+                return ("return", enclose_public(it, P, mw, val, meta, air))
             except Raised as r:
                 return ("raise", r)
             except (Unsupported, LoopBound) as u:
-                raise AnalysisError(f"C10.R3: analyser cannot follow _enclose: {u}")
+                raise AnalysisError(f"C10.R3: analyser cannot follow AddEnclosingMiddleware.transform_entry: {u}")
         for ctx, (kind, v) in explore(one, 20):
             n3 += 1
             want = ref_enclose(val, meta, air, reuse, ei, default)
@@ -245,7 +314,9 @@ def run(P: Program, rep: Report):
             it = driver_interp(P, ctx, "middlewares.enclosing")
             f1 = new_obj(it, P, "model", "Field", key="title", value=s, start_line=1)
             f2 = new_obj(it, P, "model", "Field", key="year", value="1990", start_line=2)
-            e = new_obj(it, P, "model", "Entry", entry_type="a", key="k", fields=AList([f1, f2]), start_line=0, raw="r")
+            # a field whose key differs from `title` only in letter case, enclosed the other way: its record is its own
+            f3 = new_obj(it, P, "model", "Field", key="TITLE", value=('"other"' if s.strip().startswith("{") else "{other}"), start_line=3)
+            e = new_obj(it, P, "model", "Entry", entry_type="a", key="k", fields=AList([f1, f2, f3]), start_line=0, raw="r")
             st = new_obj(it, P, "model", "String", key="s", value=s, start_line=3, raw="r")
             lib = new_obj(it, P, "library", "Library")
             call(it, lib, "add", AList([e, st]))
@@ -273,6 +344,9 @@ def run(P: Program, rep: Report):
                 badt.setdefault("removed-value", f"RemoveEnclosing turns {s!r} into {mid[0]!r} (field) / {mids!r} (string), one layer off gives {ref_strip(s)[0]!r}")
             if out[0] != s.strip() or outs != s.strip():
                 badt.setdefault("restored-value", f"remove then add(reuse) turns {s!r} into {out[0]!r} (field) / {outs!r} (string) instead of {s.strip()!r}")
+            if out[2] != ('"other"' if s.strip().startswith("{") else "{other}"):
+                badt.setdefault("case-variant-key", f"with title = {s!r}, the field TITLE = {('\"other\"' if s.strip().startswith('{') else '{other}')} comes back as {out[2]!r} "
+                                                    f"after remove/add(reuse): the recorded enclosing of one field key is used for another that differs in case")
             if out[1] != "1990":
                 badt.setdefault("numeric-field", f"numeric field value '1990' becomes {out[1]!r} after remove/add(reuse)")
     rep.count("round_trip_values", nrt)
@@ -350,7 +424,7 @@ def run(P: Program, rep: Report):
         e = mk("Entry", entry_type="a", key="k", start_line=0, raw="r", fields=AList([
             mk("Field", key="title", value="T", start_line=1), mk("Field", key="year", value="2019", start_line=2),
             mk("Field", key="note", value="see x", start_line=3), mk("Field", key="isbn", value="1", start_line=4)]))
-        e.attrs["_parser_metadata"].items["removed_enclosing"] = ADict({"title": '"', "year": "no-enclosing"})
+        it.get_attr(e, "parser_metadata").items["removed_enclosing"] = ADict({"title": '"', "year": "no-enclosing"})
         lib = new_obj(it, P, "library", "Library")
         call(it, lib, "add", e)
         try:
@@ -363,6 +437,27 @@ def run(P: Program, rep: Report):
         rep.check(v == ['"T"', "2019", "{see x}", "{1}"], "C10.R4", "call-site:partial-metadata", acls.loc,
                   f"AddEnclosing(reuse) with recorded enclosings for title (quote) and year (none) only gives {v!r}; "
                   f"fields without a record must get the default: ['\"T\"', '2019', '{{see x}}', '{{1}}']")
+    def partial2(ctx):
+        it = driver_interp(P, ctx, "middlewares.enclosing")
+        mk = lambda c, *a, **k: new_obj(it, P, "model", c, *a, **k)
+        e = mk("Entry", entry_type="a", key="k", start_line=0, raw="r", fields=AList([
+            mk("Field", key="title", value="T", start_line=1), mk("Field", key="year", value="2019", start_line=2),
+            mk("Field", key="volume", value="12", start_line=3), mk("Field", key="number", value=7, start_line=4),
+            mk("Field", key="month", value=0, start_line=5), mk("Field", key="note", value="see x", start_line=6)]))
+        it.get_attr(e, "parser_metadata").items["removed_enclosing"] = ADict({"title": '"', "year": "no-enclosing"})
+        lib = new_obj(it, P, "library", "Library")
+        call(it, lib, "add", e)
+        try:
+            ad = it.construct(acls, [], {"reuse_previous_enclosing": True, "enclose_integers": False, "default_enclosing": "{"})
+            out = call(it, ad, "transform", lib)
+            return [it.get_attr(f, "value") for f in it.iterate(it.get_attr(it.get_attr(out, "entries").items[0], "fields"))]
+        except Raised as r:
+            return r.cls_name()
+    for ctx, v in explore(partial2, 20):
+        rep.check(v == ['"T"', "2019", "12", "7", "0", "{see x}"], "C10.R4", "call-site:partial-metadata-integers-unenclosed", acls.loc,
+                  f"AddEnclosing(reuse, enclose_integers=False) on an entry with records for title and year only gives {v!r}; fields added after "
+                  f"parsing have no record: numeric ones (digit strings, ints incl. 0) stay unenclosed, the others get the default: "
+                  f"['\"T\"', '2019', '12', '7', '0', '{{see x}}']")
     for bad_default in ("no-enclosing", "(", ""):
         def one(ctx):
             it = driver_interp(P, ctx, "middlewares.enclosing")
@@ -374,6 +469,33 @@ def run(P: Program, rep: Report):
         for ctx, v in explore(one, 5):
             rep.check(v == "ValueError", "C10.R4", f"constructor-rejects:{bad_default!r}", acls.loc,
                       f"AddEnclosingMiddleware(default_enclosing={bad_default!r}) is {v}, expected ValueError")
+
+    rep.rule("C10.R6", "entries are entries, strings are strings: instances of user-defined subclasses of Entry / String go through the library-level "
+                       "transform like the base classes - their enclosings are removed and recorded, and added back")
+    from . import common as _cm6
+    sub_e, sub_s = _cm6.synthetic_subclass(P, P.cls("model", "Entry")), _cm6.synthetic_subclass(P, P.cls("model", "String"))
+
+    def subclasses(ctx):
+        it = driver_interp(P, ctx, "middlewares.enclosing")
+        e = it.construct(sub_e, [], dict(entry_type="a", key="k", start_line=0, raw="r", fields=AList([
+            new_obj(it, P, "model", "Field", key="title", value='"Quoted"', start_line=1), new_obj(it, P, "model", "Field", key="note", value="{Braced}", start_line=2)])))
+        st = it.construct(sub_s, [], dict(key="s", value='"SV"', start_line=3, raw="r"))
+        lib = new_obj(it, P, "library", "Library")
+        call(it, lib, "add", AList([e, st]))
+        vals = lambda l: ([it.get_attr(f, "value") for b in it.iterate(it.get_attr(l, "blocks")) if isinstance(b, AObj) and sub_e in b.cls.mro for f in it.iterate(it.get_attr(b, "fields"))],
+                          [it.get_attr(b, "value") for b in it.iterate(it.get_attr(l, "blocks")) if isinstance(b, AObj) and sub_s in b.cls.mro])
+        try:
+            l2 = call(it, it.construct(rcls, [], {}), "transform", lib)
+            mid = vals(l2)
+            l3 = call(it, it.construct(acls, [], {"reuse_previous_enclosing": True, "enclose_integers": True, "default_enclosing": "{"}), "transform", l2)
+            return (mid, vals(l3))
+        except (Raised, Unsupported, LoopBound) as e_:
+            return str(e_)
+    for ctx, v in explore(subclasses, 20):
+        want = ((["Quoted", "Braced"], ["SV"]), (['"Quoted"', "{Braced}"], ['"SV"']))
+        rep.check(v == want, "C10.R6", "subclass-instances", rcls.loc,
+                  f"an instance of a subclass of Entry with title = \"Quoted\", note = {{Braced}} and one of String with value \"SV\": after removal / after adding back "
+                  f"{v!r}; expected {want!r}")
 
     rep.rule("C10.R9", "no unsafe memoisation in the modules this property rests on: a function decorated with lru_cache / cache / "
                       "cached_property neither takes nor returns a mutable object (else later calls see stale or shared results)")
